@@ -20,7 +20,7 @@ def server_identity():
 
 class Sandwich:
     def __init__(self, loop, inner_factory, backend="pyopenssl", log=None, client_identity=None,
-                 peername=("192.0.2.7", 40001), request_client_cert=True, server_ident=None):
+                 peername=("192.0.2.7", 40001), request_client_cert=True, server_ident=None, tls_max=None):
         self.loop = loop
         self.backend = backend
         self.log = log if log is not None else []
@@ -58,6 +58,8 @@ class Sandwich:
         cctx = ssl.SSLContext(ssl.PROTOCOL_TLS_CLIENT)
         cctx.check_hostname = False
         cctx.verify_mode = ssl.CERT_NONE
+        if tls_max == "1.2":
+            cctx.maximum_version = ssl.TLSVersion.TLSv1_2
         if client_identity is not None:
             cctx.load_cert_chain(client_identity.certfile, client_identity.keyfile)
         self.client = cctx.wrap_bio(self.cin, self.cout, server_side=False, server_hostname="localhost")
